@@ -39,6 +39,7 @@ type Case struct {
 	Damage      []scen.Damage   `json:"damage"`
 	G           int             `json:"g"`
 	DoubleCheck bool            `json:"double_check"`
+	NoClient    bool            `json:"no_client,omitempty"` // the creator packets carry an empty client string (NUL padding only)
 	Decoys      bool            `json:"decoys,omitempty"` // entries beside the index that start with "<base>." but do not end in ".par2"
 }
 
@@ -154,6 +155,9 @@ func runLayout(c Case, canonical, ownWriter bool) (outcome, map[string][]byte, m
 	}
 	fsx.WriteTree(dir, orig)
 	set := par2ref.NewSet(c.Slice, orig)
+	if c.NoClient {
+		set.Client = "\x00\x00\x00\x00"
+	}
 	if ownWriter {
 		var paths []string
 		for _, n := range names {
@@ -432,6 +436,7 @@ func gen(t *rapid.T) Case {
 	c.G = rapid.IntRange(1, 4).Draw(t, "g")
 	c.DoubleCheck = rapid.Bool().Draw(t, "dc")
 	c.Decoys = rapid.IntRange(0, 2).Draw(t, "decoys") == 0
+	c.NoClient = rapid.IntRange(0, 5).Draw(t, "noclient") == 0
 	return c
 }
 
